@@ -561,8 +561,17 @@ class FileCache:
         uris, directives = parse_directives(unparsed_uris)
         filepaths = [self._cache_file_path(uri) for uri in uris]
 
+        cache_misses = self.get_cache_misses(uris, directives)
+
+        # Cache hits: touch the file to indicate it has been used recently.
+        missed = [cache_miss.filename for cache_miss in cache_misses]
+        for uri in uris:
+            hashkey = self._cache_file_name(uri)
+            if hashkey not in missed:
+                self._get_from_cache(hashkey)
+
         # for all URI's not in cache
-        if cache_misses := self.get_cache_misses(uris, directives):
+        if cache_misses:
             was_succesfully_downloaded = _download_from_resources(
                 cache_misses,
                 self.resources,
